@@ -39,6 +39,18 @@ class Live:
 
 def apply_single(engine, op: dict):
     k = op["op"]
+    if k in ("inputs", "edit", "toggle"):
+        # a library exception while setting inputs / editing is an outcome (compared between engine and twin),
+        # not a harness error
+        try:
+            return _apply_plain(engine, op)
+        except Exception as e:
+            return "raised:" + type(e).__name__
+    return _apply_plain(engine, op)
+
+
+def _apply_plain(engine, op: dict):
+    k = op["op"]
     if k == "inputs":
         EO.set_inputs(engine, op["rows"], op.get("setter", "vars"))
         return None
